@@ -288,7 +288,7 @@ theorem renamedState_core {s : State} (hI : InvCore s) (g : Nat) (dict : List (N
     obtain ⟨e, he, heq⟩ := mem_renamed_links.1 hk'
     obtain ⟨rfl, ho⟩ := Prod.mk.inj heq
     have := hI.handleLink h hd hh hc e.1 (by rw [ho]; exact he)
-    exact mem_renamed_cols.2 ⟨(e.1, h), this, rfl⟩
+    rw [renKey_frame]; exact this
 
 /-- a rename that does not pass the pre-check raises and changes nothing -/
 theorem renameFields_fail (v : Variant) (s : State) (g : Nat) (dict : List (Name × Name)) (hkn : (dict.map (·.1)).Nodup)
